@@ -63,6 +63,7 @@ type FuncContract struct {
 	Epilogue []Clause // ghost assignments executed at every return (ghost code of the function)
 	Modifies []string
 	Safety   []string // property tags under which panic-freedom obligations are claimed
+	Scenario   string // name of a scenario battery under /verif/scenarios replayed when an obligation of this function fails
 	ChanTags   []string
 	ChanResult string // the result is the channel whose ghost log is named by this counter (`yields log N`)
 	Owns     []string // property tags under which hand-over obligations ([]byte sent on a channel is not written afterwards) are claimed
@@ -188,6 +189,7 @@ type Contracts struct {
 	Ghosts map[string]*GhostDecl
 	GhostFields map[string]string  // name -> type: ghost attributes of objects (arrays GF_<name>)
 	Unscoped    map[string][]string // pkgpath::key -> property tags: functions outside a discipline sweep
+	RuleArgs    map[string][]string // rule name -> function keys (pkgpath::key) it applies to
 	Rules       map[string][]string // whole-module syntactic rules claimed for properties (rule[tags] name)
 	ChanLogs    []*ChanLog          // ghost logs of channel fields
 	Globals map[string]*GlobalDecl // pkgpath.Name
@@ -199,7 +201,7 @@ type Contracts struct {
 
 func newContracts() *Contracts {
 	return &Contracts{Funcs: map[string]*FuncContract{}, Specs: map[string]*SpecFn{}, Lemmas: map[string]*Lemma{},
-		Ifaces: map[string]*IfaceContract{}, Ghosts: map[string]*GhostDecl{}, GhostFields: map[string]string{}, Unscoped: map[string][]string{}, Globals: map[string]*GlobalDecl{}, Externs: map[string]*FuncContract{}, Rules: map[string][]string{}, Sha: map[string]string{}}
+		Ifaces: map[string]*IfaceContract{}, Ghosts: map[string]*GhostDecl{}, GhostFields: map[string]string{}, Unscoped: map[string][]string{}, Globals: map[string]*GlobalDecl{}, Externs: map[string]*FuncContract{}, Rules: map[string][]string{}, RuleArgs: map[string][]string{}, Sha: map[string]string{}}
 }
 
 type cline struct {
@@ -343,7 +345,7 @@ var topKeywords = map[string]bool{"func": true, "closure": true, "spec": true, "
 var clauseKeywords = map[string]bool{"requires": true, "ensures": true, "modifies": true, "safety": true, "pure": true,
 	"inline": true, "may_panic": true, "witness": true, "lemma": true, "role": true, "holds": true, "acquires": true,
 	"decreases": true, "loop": true, "invariant": true, "unfold": true, "method": true, "reads": true, "trusted": true,
-	"assumed": true, "terminates": true, "call": true, "hint": true, "anchor": true, "reveal": true, "assert": true, "after": true, "forall": true, "inst": true, "callback": true, "assumes": true, "epilogue": true, "set": true, "handover": true, "yields": true}
+	"assumed": true, "terminates": true, "call": true, "hint": true, "anchor": true, "reveal": true, "assert": true, "after": true, "forall": true, "inst": true, "callback": true, "assumes": true, "epilogue": true, "set": true, "handover": true, "yields": true, "scenario": true}
 
 func firstWord(s string) string {
 	s = strings.TrimSpace(s)
@@ -582,6 +584,8 @@ func (cs *Contracts) parseFuncClauses2(fc *FuncContract, loop *LoopSpec, call *C
 		}
 		fc.ChanResult = f[1]
 		fc.ChanTags = tags
+	case "scenario":
+		fc.Scenario = strings.TrimSpace(rest)
 	case "handover":
 		tags, _, _ := parseTagged(rest)
 		fc.Owns = append(fc.Owns, tags...)
@@ -910,8 +914,21 @@ func (cs *Contracts) parseBlock(b []cline, path, pkgPath string) {
 		}
 		cs.ChanLogs = append(cs.ChanLogs, cl)
 	case "rule":
+		// rule[tags] name   or   rule[tags] name: pkg-relative function keys, ...
 		tags, _, body := parseTagged(rest)
-		cs.Rules[strings.TrimSpace(body)] = append(cs.Rules[strings.TrimSpace(body)], tags...)
+		for _, l := range b[1:] {
+			body += " " + l.text
+		}
+		name := strings.TrimSpace(body)
+		if k := strings.Index(body, ":"); k >= 0 {
+			name = strings.TrimSpace(body[:k])
+			for _, a := range splitTop(body[k+1:], ',') {
+				if a != "" {
+					cs.RuleArgs[name] = append(cs.RuleArgs[name], pkgPath+"::"+a)
+				}
+			}
+		}
+		cs.Rules[name] = append(cs.Rules[name], tags...)
 	case "unscoped":
 		tags, _, body := parseTagged(rest)
 		for _, k := range splitTop(body, ',') {
